@@ -174,5 +174,5 @@ ASSUMPTIONS = [
     "C11: non-interference is read off the pointwise tensor theory: every modelled tensor operation is element-wise in the batch index except whole-tensor reductions, which are tracked; an operation the theory does not model is reported as out of reach, never as independent",
     "C11: layers are checked with stub components (C17), connections with the C04-contract synapse stub (C05): their own batch independence is the C03/C04 part of this property",
     "C11: ALIF / GLIF2 / Izhikevich / AdEx (adaptation frozen), Conv2D, RecurrentSerial on real components: bounded stand-in only (native/c11.py: batched run vs per-sample runs)",
-    "C11: the induction from one step to whole input sequences uses determinism of the step contracts (stated, not mechanised)",
+    "C11: the induction from one step to whole input sequences uses determinism of the step contracts (generic Lean lemma batch_projection_fold, lean/Induction.lean)",
 ]
